@@ -241,8 +241,8 @@ theorem readers_change_nothing_under_every_interleaving (calls : List Call) (hc 
 /-- **A call rejected by its argument checks touches nothing, in every semantics.** `argChecks c` are
     the pure checks the call makes first (identifiers None / empty / white space / wrong type, data of
     an unsupported type or an empty path, sizes that are not positive integers, a checksum without
-    its algorithm or the reverse and unsupported algorithm names for `store_object`, a missing
-    ObjectMetadata). If one of them fails the program is `return error` — no primitive is issued: the
+    its algorithm or the reverse, unsupported algorithm names for `store_object`, `get_hex_digest` and
+    `delete_if_invalid_object`, a missing ObjectMetadata). If one of them fails the program is `return error` — no primitive is issued: the
     sequential run from ANY world under ANY fault plan returns that error and leaves directory, lock
     lists, plan and log as they were; so does every crash prefix; and as a thread among others the call
     returns that error at its first step and changes nothing. -/
@@ -254,6 +254,8 @@ theorem rejected_changes_nothing_in_every_semantics (c : Call) (e : Exc) (h : fi
 
 /-- the hypothesis is met by, e.g., a pid with white space, a `None` cid, a non-positive size -/
 example : firstErr (argChecks cfg (.tagObject (.str "a b".toList) (.str "c".toList))) = some .valueError := by
+  simp only [argChecks]; decide
+example : firstErr (argChecks cfg (.getHexDigest (.str "p".toList) (.str "md2".toList))) = some .unsupportedAlgorithm := by
   simp only [argChecks]; decide
 
 end HS.C17
